@@ -165,7 +165,7 @@ def strip_sites(tm):
     if tag == "new":
         return ("new", tm[1], strip_sites(tm[2]))
     if tag == "elem":
-        return ("elem", strip_sites(tm[1]))
+        return ("elem", strip_sites(tm[1]), tm[3] if len(tm) > 3 else 0)
     if tag == "unknown":
         return ("unknown",)
     if tag == "closure":
